@@ -632,3 +632,98 @@ def param_ref_hook(field='m_parameters'):
         P.note('parameter("..") -> the object\'s m_parameters')
         return f'({base}->{field})'
     return h
+
+
+# ----------------------------------------------------------------------------------------------------- loop frames
+LOOPS = ('ForStmt', 'WhileStmt', 'DoStmt', 'CXXForRangeStmt')
+
+
+def auto_loop_frames(fn, extra='', inv='1', skip_ctypes=(r'\*$',), member_wise=None):
+    """NV_LOOP_<cname>_<k> macros for a function whose loops need no invariant beyond the frame: the assigns clause of loop
+    k lists every local that is in scope at the loop (declared earlier in an enclosing block, or in the loop's own
+    init-statement) -- an upper bound of what the body can change among the locals -- plus `extra` (objects reached
+    through pointers).  Locals of pointer type are left out (a havocked pointer loses its target; the extracted bodies
+    never re-seat them inside a loop: a write to such a local inside the loop is then refuted, not missed); `member_wise`
+    maps a local's C type to the list of its assignable parts (structs that hold pointers)."""
+    d = astload.find_definition(fn.tu, fn.flt, fn.name, fn.select, fn.kinds)
+    if fn.lambda_index is not None:
+        lam = astload.find_lambdas(d)[fn.lambda_index]
+        d = astload.lambda_call_operator(lam)
+    P = cxx2c.Printer(fn.cname, fn.types, opaque=fn.opaque)
+    out = []
+    counter = [0]
+    member_wise = member_wise or {}
+
+    def names_of(v):
+        if v.get('kind') == 'DecompositionDecl':
+            res = []
+            for b in v.get('inner', []):
+                if b.get('kind') == 'BindingDecl':
+                    res.append((b['name'], None))
+            return res
+        if v.get('kind') != 'VarDecl' or v.get('storageClass') == 'static':
+            return []
+        init = [x for x in v.get('inner', []) if x.get('kind') != 'FullComment']
+        if init and unwrap(init[0]).get('kind') == 'LambdaExpr':
+            return []
+        try:
+            c = P.ctype(v['type'])
+        except Unsupported:
+            return []
+        if v['type'].get('qualType', '').rstrip().endswith('&'):
+            c += '' if c.endswith('*') else '*'
+        return [(v['name'], c)]
+
+    def visit(n, scope):
+        if not isinstance(n, dict) or not n or n.get('kind') == 'LambdaExpr':
+            return
+        k = n.get('kind')
+        if k in LOOPS:
+            counter[0] += 1
+            idx = counter[0]
+            local = list(scope)
+            inner = n.get('inner', [])
+            if k == 'ForStmt' and inner and inner[0]:
+                for v in inner[0].get('inner', []) if inner[0].get('kind') == 'DeclStmt' else []:
+                    local += names_of(v)
+            if k == 'CXXForRangeStmt':
+                for dd in inner[:4]:
+                    if dd and dd.get('kind') == 'DeclStmt':
+                        for v in dd.get('inner', []):
+                            if v.get('name', '').startswith('__begin'):
+                                local += names_of(v)
+            items = []
+            for nm, c in local:
+                if c in member_wise:
+                    items += [t.format(nm) for t in member_wise[c]]
+                elif c is not None and any(re.search(rx, c) for rx in skip_ctypes):
+                    continue
+                else:
+                    items.append(nm)
+            items = list(dict.fromkeys(items))
+            out.append(f'#define NV_LOOP_{fn.cname}_{idx} __CPROVER_assigns({", ".join(items + ([extra] if extra else []))}) __CPROVER_loop_invariant({inv})')
+            body = inner[-1] if k != 'DoStmt' else inner[0]
+            visit(body, local)
+            return
+        if k == 'CompoundStmt':
+            sc = list(scope)
+            for c in n.get('inner', []):
+                if c.get('kind') == 'DeclStmt':
+                    for v in c.get('inner', []):
+                        sc += names_of(v)
+                visit(c, sc)
+            return
+        if k == 'IfStmt':
+            sc = list(scope)
+            for c in n.get('inner', []):
+                if c and c.get('kind') == 'DeclStmt':
+                    for v in c.get('inner', []):
+                        sc += names_of(v)
+                visit(c, sc)
+            return
+        for c in n.get('inner', []):
+            visit(c, scope)
+
+    body = [c for c in d.get('inner', []) if c.get('kind') == 'CompoundStmt'][0]
+    visit(body, [])
+    return '\n'.join(out) + '\n'
